@@ -18,14 +18,14 @@ SendR ==
   \E d \in {Pick((Chains \ {c}) \cup (IF Pick(1..8) = 1 THEN {"?"} ELSE {}))} :
   \E k \in {Pick({x \in Kinds : <<c, x>> \in SendFrom} \cup {"fwd"})} :
   \E a \in {IF Pick(1..10) = 1 THEN Big ELSE Pick(Amts)} :
-  \E cl \in {Pick(Calls)} : \E f \in {Pick(Fees)} :
+  \E cl \in {Pick(IF k = "fwd" THEN Calls ELSE Calls \ {"nestok"})} : \E f \in {Pick(Fees)} :
      (d \in Chains => seq[c][d] <= MaxSeq) /\ Send(c, d, k, a, cl, f)
 
 (* a transfer back of wrapped tokens the user really holds *)
 SendBackR ==
   \E c \in Chains : \E d \in Others(c) :
      /\ wbal[c][d] > 0 /\ "back" \in Kinds /\ seq[c][d] <= MaxSeq
-     /\ \E a \in {Pick({x \in Amts : x <= wbal[c][d]} \cup {1})} : \E cl \in {Pick(Calls)} : \E f \in {Pick(Fees)} :
+     /\ \E a \in {Pick({x \in Amts : x <= wbal[c][d]} \cup {1})} : \E cl \in {Pick(Calls \ {"nestok"})} : \E f \in {Pick(Fees)} :
            Send(c, d, "back", a, cl, f)
 
 SendViaR ==
